@@ -402,8 +402,9 @@ Definition i_memory_full_info :=
 Definition i_memory_maps :=
   Call (wrapped (seqs [read_smaps;
                        If TEmpty (Seq (raise_if_zombie Self FStat) Ret)
-                          (* for every mapping whose path ends in " (deleted)": path_exists_strict(path) *)
-                          (Seq (ForNames (stat_strict FMapPathE Skip)) Ret)])).
+                          (* for every mapping whose path ends in " (deleted)": path_exists_strict(path); since commit
+                             b718f0c a PermissionError of that probe is caught too ("cannot be shown to exist") *)
+                          (Seq (ForNames (Try (acc KStat Ext FMapPathE) (handlers [(HOSError, Skip)]) Skip)) Ret)])).
 Definition raise_if_not_alive := acc KStat Self FDir.
 Definition i_threads :=
   Call (wrapped (seqs
